@@ -153,14 +153,20 @@ class MDOChain(ProcessDiscipline):
                 # This output has already been taken from previous disciplines
                 # Derivatives must be composed using the chain rule
 
-                # Make a copy of the keys because the dict is changed in the
-                # loop
-                common_inputs = sorted(
-                    set(self.jac[output_name].keys()).intersection(discipline.jac)
-                )
+                # The discipline overwrites its outputs: the derivatives wrt these
+                # outputs are composed with the Jacobian of the discipline and then
+                # removed, as they do not hold before the discipline
+                # (the composition restores the ones that are also inputs).
+                output_jac = self.jac[output_name]
+                curr_jacs = {
+                    name: output_jac.pop(name)
+                    for name in tuple(output_jac)
+                    if name in discipline.io.output_grammar
+                }
+                common_inputs = sorted(set(curr_jacs).intersection(discipline.jac))
                 for input_name in common_inputs:
                     # Store reference to the current Jacobian
-                    curr_jac = self.jac[output_name][input_name]
+                    curr_jac = curr_jacs[input_name]
                     for new_in, new_jac in discipline.jac[input_name].items():
                         # Chain rule the derivatives
                         # TODO: sum BEFORE dot
@@ -171,10 +177,7 @@ class MDOChain(ProcessDiscipline):
                         else:
                             loc_dot = curr_jac @ new_jac
 
-                        # when input_name==new_in, we are in the case of an
-                        # input being also an output
-                        # in this case we must only compose the derivatives
-                        if new_in in self.jac[output_name] and input_name != new_in:
+                        if new_in in self.jac[output_name]:
                             # The output is already linearized wrt this
                             # input_name. We are in the case:
                             # d o     d o    d o     di_2
@@ -194,11 +197,14 @@ class MDOChain(ProcessDiscipline):
                             #  d x      d i_1   d x    d i_2    d x
                             self.jac[output_name][new_in] = loc_dot
 
-            elif output_name in discipline.jac:
-                # Output of the chain not yet filled in jac,
+            elif output_name in discipline.io.output_grammar:
+                # Output of the chain not yet filled in jac:
+                # this discipline is the last one to compute it.
                 # Take the jacobian dict of the current discipline to
                 # Initialize. Make a copy !
-                self.jac[output_name] = MDOChain.copy_jacs(discipline.jac[output_name])
+                self.jac[output_name] = MDOChain.copy_jacs(
+                    discipline.jac.get(output_name, {})
+                )
 
     def _compute_diff_in_outs(
         self,
@@ -231,6 +237,9 @@ class MDOChain(ProcessDiscipline):
         # The graph traversal algorithm avoid to compute unnecessary Jacobians
         last_discipline.linearize(last_cached, execute=False)
         self.jac = self.copy_jacs(last_discipline.jac)
+        for output_name in output_names:
+            if output_name in last_discipline.io.output_grammar:
+                self.jac.setdefault(output_name, {})
 
         # reverse mode of remaining disciplines
         remaining_disciplines = self.disciplines[:-1]
